@@ -121,7 +121,7 @@ def rebalance_stack(rng, names, prog, cash=True, kinds=("lattice", "long", "ls")
     if mode == "specified":
         st.append(["WeighSpecified", {"w": wvec(rng, names, rng.choice(kinds))}])
     elif mode == "equal":
-        st.append(["SelectAll", {}])
+        st.append(["SelectAll", {}] if rng.random() < 0.6 else ["SelectHasData", {"lookback": rng.choice([1, 2, 4]), "min_count": rng.choice([1, 2, 3])}])
         st.append(["WeighEqually", {}])
     elif mode == "equal_these":
         k = rng.randint(1, len(names))
@@ -430,6 +430,25 @@ def prog_fi(rng, **kw):
     return prog
 
 
+def prog_hasdata_nested(rng, **kw):
+    """A parent that holds a sub-strategy and picks its own tickers by how many
+    quotes they have had so far (late listings, gaps): what counts is the history up
+    to now, never the rows still to come (C04)."""
+    T = rng.randint(9, 12)
+    cols = ["a", "b", "c", "d"]
+    px = {c: walk_prices(rng, T) for c in cols}
+    for c in ("c", "d"):
+        k = rng.choice([2, 3, T - 3, T - 2, T - 2])   # listed late, sometimes only just before the end
+        px[c] = [None] * k + px[c][k:]
+    prog = {"T": T, "cols": cols, "px": px, "extra": {},
+            "bt": {"capital": 100000, "integer": rng.random() < 0.5, "comm": COMMS[rng.choice(["zero", "zero", "fix"])]}}
+    kid = {"name": "k1", "algos": [list(rng.choice(CAL_SCHEDULERS[:3])), ["SelectAll", {}], ["WeighEqually", {}], ["Rebalance", {}]], "children": ["a", "b"]}
+    st = [["SelectHasData", {"lookback": rng.choice([2, 3, 5]), "min_count": rng.choice([2, 3])}], ["WeighEqually", {}], ["Rebalance", {}]]
+    prog["tree"] = {"name": "r", "algos": st, "children": [kid, "c", "d"]}
+    prog["family"] = "hasdata_nested"
+    return prog
+
+
 def prog_closeroll(rng, **kw):
     """Positions with maturities: closed after their date, rolled into a successor,
     and only the still active names selected for (possibly random) weighting."""
@@ -528,7 +547,7 @@ def prog_cashstep(rng, **kw):
     return prog
 
 
-FAMILIES = {"closeroll": prog_closeroll, "replay": prog_replay, "risk": prog_risk, "cashstep": prog_cashstep, "fi": prog_fi, "nested09": prog_nested09, "lookback": prog_lookback, "flat": prog_flat, "nested": prog_nested, "bankrupt": prog_bankrupt, "flows": prog_flows}
+FAMILIES = {"hasdata_nested": prog_hasdata_nested, "closeroll": prog_closeroll, "replay": prog_replay, "risk": prog_risk, "cashstep": prog_cashstep, "fi": prog_fi, "nested09": prog_nested09, "lookback": prog_lookback, "flat": prog_flat, "nested": prog_nested, "bankrupt": prog_bankrupt, "flows": prog_flows}
 
 
 def prog_by_family(seed, i, family):
